@@ -8,6 +8,7 @@
                             as a nest of functions whose recover / unguarded-operation shape is
                             regenerated from the source (Gen/ApiShape.v); inner = innermost body
      Panic                  a panic escapes the entry point;  Hang = the call does not return
+     cache_get              lookup in the type cache of a builder / iterator session
      artificially_terminate builder/context.go ArtificiallyTerminate on a builder stack
      frag_decode            cbe/decoder.go Decode + runMainDecodeLoop on a fragment of CBE
    The model does not cover: process death by memory exhaustion (the CBE reader allocates twice
@@ -19,28 +20,16 @@ Open Scope N_scope.
 
 (* ---- panics ---- *)
 
-(* Whatever the innermost body does (including panicking), no entry point other than the
-   universal DecodeDocument lets a panic escape: on every path a function with a deferred
-   recover() is crossed and no partial operation sits outside it. *)
+(* Whatever the innermost body does (including panicking), NO entry point lets a panic
+   escape, on any document (the empty one included): on every path a function with a
+   deferred recover() is crossed and no partial operation sits outside it.  (Since commit
+   753581c this includes the universal DecodeDocument: the shape regenerated from the source
+   no longer has the unguarded document[0].) *)
 Theorem C07_no_panic_escapes :
   forall (R : Type) (e : entry_point) (head : bytes) (len : N) (inner : fmt -> outcome R),
-    e <> CEDecoder_DecodeDocument -> run_chain e head len inner <> Panic.
+    run_chain e head len inner <> Panic.
 Proof. exact @run_chain_no_panic. Qed.
 Print Assumptions C07_no_panic_escapes.
-
-(* The universal DecodeDocument does not either, provided the document is not empty ... *)
-Theorem C07_decode_document_nonempty_no_panic :
-  forall (R : Type) (head : bytes) (len : N) (inner : fmt -> outcome R),
-    len <> 0 -> run_chain CEDecoder_DecodeDocument head len inner <> Panic.
-Proof. exact @run_chain_decode_document_no_panic. Qed.
-Print Assumptions C07_decode_document_nonempty_no_panic.
-
-(* ... and on the empty document it always panics (document[0] outside any recover). *)
-Theorem C07_decode_document_empty_panics :
-  forall (R : Type) (head : bytes) (inner : fmt -> outcome R),
-    run_chain CEDecoder_DecodeDocument head 0 inner = Panic.
-Proof. exact @run_chain_decode_document_empty. Qed.
-Print Assumptions C07_decode_document_empty_panics.
 
 (* The hand-written call chains follow the call graph extracted from the source. *)
 Theorem C07_chains_in_callgraph :
@@ -95,9 +84,32 @@ Print Assumptions C07_frag_decode_returns.
    point returns a result or an error on every byte string. *)
 Theorem C07_frag_unmarshal_returns :
   forall (e : entry_point) (d : bytes) (o : outcome unit),
-    e <> CEDecoder_DecodeDocument -> frag_unmarshal e d = Some o -> o <> Panic /\ o <> Hang.
+    frag_unmarshal e d = Some o -> o <> Panic /\ o <> Hang.
 Proof. exact frag_unmarshal_good. Qed.
 Print Assumptions C07_frag_unmarshal_returns.
+
+(* ---- type caches ---- *)
+
+(* From an empty cache no sequence of calls stores a placeholder, so no lookup ever waits:
+   a lookup of an unsupported type leaves the cache unchanged (commit d2cf257) ... *)
+Theorem C07_failed_build_leaves_cache :
+  forall (c : cache) (t : N), cache_find c t = None -> cache_get c t false = (c, BuildPanics).
+Proof. exact cache_get_unsupported_unchanged. Qed.
+Print Assumptions C07_failed_build_leaves_cache.
+
+Theorem C07_lookup_never_waits :
+  forall (c : cache) (t : N) (sup : bool),
+    no_placeholder c -> no_placeholder (fst (cache_get c t sup)) /\ snd (cache_get c t sup) <> Waits.
+Proof. exact cache_get_keeps. Qed.
+Print Assumptions C07_lookup_never_waits.
+
+(* ... whereas before the repair the second lookup of the same unsupported type waited forever. *)
+Theorem C07_old_cache_poisoned :
+  forall (c : cache) (t : N), cache_find c t = None ->
+    snd (cache_get_old c t false) = BuildPanics /\
+    snd (cache_get_old (fst (cache_get_old c t false)) t false) = Waits.
+Proof. exact old_cache_poisoned. Qed.
+Print Assumptions C07_old_cache_poisoned.
 
 (* ---- the property ---- *)
 
@@ -106,26 +118,8 @@ Print Assumptions C07_frag_unmarshal_returns.
 Definition C07_full : Prop :=
   forall (e : entry_point) (calls : list call), Forall (fun o => o <> Panic /\ o <> Hang) (run e calls).
 
-(* It is FALSE on the current tree; four classes of witnesses. *)
-Theorem C07_empty_document_refuted :
-  ~ Forall (fun o => o <> Panic /\ o <> Hang) (run CEDecoder_DecodeDocument [CallDecode [] 0 (fun _ => false)]).
-Proof. exact empty_document_refutes. Qed.
-Print Assumptions C07_empty_document_refuted.
-
-Theorem C07_marshaler_reuse_refuted :
-  ~ Forall (fun o => o <> Panic /\ o <> Hang)
-      (run CBEMarshaler_Marshal [CallMarshal unsupported_value; CallMarshal unsupported_value]).
-Proof. exact marshaler_reuse_refutes. Qed.
-Print Assumptions C07_marshaler_reuse_refuted.
-
-Theorem C07_unmarshaler_reuse_refuted :
-  ~ Forall (fun o => o <> Panic /\ o <> Hang)
-      (run CBEUnmarshaler_Unmarshal
-        [CallUnmarshal [129] 3 7 false (fun _ => {| d_trace := [SVal]; d_fails := false |});
-         CallUnmarshal [129] 3 7 false (fun _ => {| d_trace := [SVal]; d_fails := false |})]).
-Proof. exact unmarshaler_reuse_refutes. Qed.
-Print Assumptions C07_unmarshaler_reuse_refuted.
-
+(* It is still FALSE on the current tree: a value that reaches itself (recursion support is off
+   by default) sends Iterate into unbounded recursion. *)
 Theorem C07_cyclic_value_refuted :
   ~ Forall (fun o => o <> Panic /\ o <> Hang) (run MarshalToCBEDocument [CallMarshal cyclic_value]).
 Proof. exact cyclic_value_refutes. Qed.
@@ -135,27 +129,33 @@ Theorem C07_full_refuted : ~ C07_full.
 Proof. exact full_property_false. Qed.
 Print Assumptions C07_full_refuted.
 
-(* Partial: the property holds for every session that stays away from exactly those classes:
-     - the universal DecodeDocument is not given an empty document,
-     - marshaled values are acyclic,
-     - an object (Marshaler / Unmarshaler) is not reused after a call with an unsupported
-       type: either the entry point makes a fresh object per call, or all types are supported.
-   In particular a failing decode never hangs, whatever events reached the builder. *)
+(* Partial: the property holds for EVERY session whose marshaled values are acyclic — every
+   entry point, every document (empty included), every mixture of supported and unsupported
+   template / value types, any reuse of a Marshaler / Unmarshaler / Decoder after failed
+   calls, any events reaching the builder before a decode error. *)
 Theorem C07_partial :
   forall (e : entry_point) (calls : list call),
-    benign e calls -> Forall (fun o => o <> Panic /\ o <> Hang) (run e calls).
+    benign calls -> Forall (fun o => o <> Panic /\ o <> Hang) (run e calls).
 Proof. exact run_good. Qed.
 Print Assumptions C07_partial.
 
 (* Non-vacuity. *)
-Example C07_benign_example_1 :
-  benign CBEUnmarshaler_Unmarshal
-         [CallUnmarshal [129] 3 1 true (fun _ => {| d_trace := [SList; SEdge; SVal]; d_fails := true |});
-          CallUnmarshal [129] 3 1 true (fun _ => {| d_trace := [SNode]; d_fails := true |})].
-Proof. exact benign_example_1. Qed.
+Example C07_benign_example :
+  benign [CallUnmarshal [129] 3 1 true (fun _ => {| d_trace := [SList; SEdge; SVal]; d_fails := true |});
+          CallUnmarshal [129] 3 2 false (fun _ => {| d_trace := [SNode]; d_fails := true |});
+          CallUnmarshal [129] 3 2 false (fun _ => {| d_trace := [SVal]; d_fails := false |});
+          CallMarshal unsupported_value; CallMarshal unsupported_value; CallDecode [] 0 (fun _ => false)].
+Proof. exact benign_example. Qed.
 
-Example C07_benign_example_2 : benign MarshalCBE [CallMarshal unsupported_value; CallMarshal unsupported_value].
-Proof. exact benign_example_2. Qed.
+(* The witnesses of the repaired defects now return errors (reuse histories return). *)
+Example C07_repaired_witnesses :
+  run CEDecoder_DecodeDocument [CallDecode [] 0 (fun _ => false)] = [Err]
+  /\ run CBEMarshaler_Marshal [CallMarshal unsupported_value; CallMarshal unsupported_value] = [Err; Err]
+  /\ run CBEUnmarshaler_Unmarshal
+        [CallUnmarshal [129] 3 7 false (fun _ => {| d_trace := [SVal]; d_fails := false |});
+         CallUnmarshal [129] 3 7 false (fun _ => {| d_trace := [SVal]; d_fails := false |});
+         CallUnmarshal [129] 3 8 true (fun _ => {| d_trace := [SVal]; d_fails := false |})] = [Err; Err; Ok tt].
+Proof. exact repaired_witnesses. Qed.
 
 Example C07_example_runs :
   run CBEUnmarshaler_Unmarshal
@@ -167,13 +167,3 @@ Example C07_example_runs :
   /\ run_loop (@length frame) terminate_step_old [FEdge 0; FTop false] = Hang
   /\ artificially_terminate [FEdge 0; FSlice; FNode false; FTop false] = Ok [FTop false].
 Proof. vm_compute. repeat split. Qed.
-
-(* Each condition of [benign] is needed: the witnesses above satisfy the other two. *)
-Example C07_benign_conditions_needed :
-  (forallb call_acyclic [CallDecode [] 0 (fun _ => false)] = true /\
-   forallb call_supported [CallDecode [] 0 (fun _ => false)] = true) /\
-  (forallb (call_nonempty_for MarshalToCBEDocument) [CallMarshal cyclic_value] = true /\
-   forallb call_supported [CallMarshal cyclic_value] = true) /\
-  (forallb (call_nonempty_for CBEMarshaler_Marshal) [CallMarshal unsupported_value; CallMarshal unsupported_value] = true /\
-   forallb call_acyclic [CallMarshal unsupported_value; CallMarshal unsupported_value] = true).
-Proof. exact benign_conditions_needed. Qed.
